@@ -225,8 +225,5 @@ def unescape(value: str) -> str:
     :param value: A value that want to un-escape.
     :rtype: str
     """
-    return (
-        value.replace("\\\\", "<ESCAPE>")
-        .replace("\\", "")
-        .replace("<ESCAPE>", "\\")
-    )
+    # NOTE: drop the backslash of every escaped character in one pass.
+    return re.sub(r"\\(.)", r"\1", value, flags=re.DOTALL)
